@@ -44,8 +44,10 @@ def case_st(draw, tier):
     kind = draw(st.sampled_from(["nano", "nano", "third"]))
     flags = {"bitmaps": draw(st.sampled_from([False, True])), "colr_version": draw(st.sampled_from([1, 1, 0])), "keep_glyph_names": draw(st.booleans())}
     if kind == "nano":
-        fmt = draw(st.sampled_from(["glyf_colr_1", "glyf_colr_1", "glyf_colr_0", "picosvg", "picosvg", "untouchedsvg", "cff_colr_1"]))
-        vc = draw(c01.vector_case([fmt], "quick", max_sources=4, transforms=False, p_grad=0.35))
+        fmt = draw(st.sampled_from(["glyf_colr_1", "glyf_colr_1", "glyf_colr_0", "picosvg", "picosvg", "picosvg", "untouchedsvg", "cff_colr_1"]))
+        # OT-SVG inputs: glyphs that share shapes end up in one multi-glyph document, which maximum_color has to take apart again
+        sharing = fmt == "picosvg"
+        vc = draw(c01.vector_case([fmt], "quick", max_sources=4, transforms=False, p_grad=0.35, lib_always=sharing, lib_prob=0.8 if sharing else 0.6, min_sources=2 if sharing else 1))
         if len(vc["sources"]) >= 3 and draw(st.sampled_from([False, False, True])):
             # a glyph that paints nothing between glyphs that do: colour glyph ids with a hole (no bitmap, no SVG content for it)
             k = draw(st.integers(1, len(vc["sources"]) - 2))
